@@ -10,6 +10,8 @@ package main
 import (
 	"fmt"
 	"runtime"
+	"sync/atomic"
+	"time"
 
 	"github.com/bradenaw/juniper/container/tree"
 
@@ -105,6 +107,14 @@ func main() {
 				run(c, setCfg())
 			}
 		})
+		// A position memo or cursor stamped with a counter narrower than the tree's goes stale only
+		// after exactly 2^k generations: make the same leaf rebalance twice, exactly 2^8 / 2^16
+		// generations apart, with its position among its siblings shifted in between.
+		r.Cases("wrap", r.Scale(16, 160), runtime.GOMAXPROCS(0), func(c *vkit.Case) { wrapCase(c) })
+		r.Floor("second rebalancing of the same leaf exactly 2^k generations after the first", r.Table("wrap", "second rebalancing reached"), 8)
+		// Real collectability (the statement's own words): finalizers on key and value tokens.
+		r.Cases("gc", r.Scale(6, 40), 1, func(c *vkit.Case) { gcCase(c) })
+		r.Floor("collectability probes", r.Table("gc", "probes"), 4)
 		for _, cls := range []string{"split", "root-split", "merge", "root-collapse", "steal-left", "steal-right",
 			"cascade: merge of >= 2 nodes in one delete", "cascade: split of >= 2 nodes in one insert",
 			"steal-left@internal", "steal-right@internal", "replace-separator", "merge with left sibling", "merge with right sibling"} {
@@ -574,4 +584,204 @@ func run[V any](c *vkit.Case, cfg cfgT[V]) {
 		}
 		r.Sample(map[string]any{"config": cfg.name, "fill": fillKind, "drain": drainKind, "keys": n, "operations": d.nops, "ops_window": first})
 	}
+}
+
+// wrapCase: see the comment at the group. Generations are read through the hook (VerifGen).
+func wrapCase(c *vkit.Case) {
+	r := c.R
+	cfg := mapCmpCfg()
+	if c.Index%2 == 1 {
+		cfg = mapLessCfg()
+	}
+	d := &drv[*Tok]{c: c, r: r, rnd: c.Rand, cfg: cfg, model: tk.NewModel[*Tok, *Tok](cmpTok), kidx: make(map[int]int)}
+	d.sut = cfg.newSUT(&d.ctr)
+	W := []int{256, 65536}[c.Index/2%2]
+	nkeys := 61 + 16*d.rnd.Intn(4)
+	d.univ = nkeys * 10
+	for i := 1; i <= nkeys; i++ {
+		d.put(i * 10)
+	}
+	if d.failed {
+		return
+	}
+	// leaves in key order
+	leafKeys := func() [][]int {
+		var out [][]int
+		for _, nd := range d.prev.T.Nodes {
+			if nd.Leaf && !nd.Revisited {
+				var ks []int
+				for s := 0; s < nd.N; s++ {
+					ks = append(ks, nd.Keys[s].ID)
+				}
+				out = append(out, ks)
+			}
+		}
+		return out
+	}
+	leaves := leafKeys()
+	if len(leaves) < 5 {
+		return
+	}
+	li := 2 + d.rnd.Intn(len(leaves)-3)
+	target := leaves[li]
+	// 1. make the target leaf rebalance (steal) once
+	firstAt := -1
+	used := 0
+	for _, k := range target {
+		nodesBefore := len(d.prev.Index)
+		d.del(k)
+		used++
+		if d.failed {
+			return
+		}
+		if len(d.prev.Index) != nodesBefore {
+			return // it merged instead of stealing: not the scenario
+		}
+		if used >= 2 {
+			firstAt = d.sut.Gen()
+			break
+		}
+	}
+	if firstAt < 0 {
+		return
+	}
+	// 2. shift the position of every later leaf: split (or, alternately, merge away) an earlier leaf
+	first := leaves[0]
+	if c.Index/4%2 == 0 {
+		for k := first[0] + 1; k < first[0]+9 && !d.failed; k++ {
+			d.put(k)
+		}
+	} else {
+		for _, k := range append(append([]int{}, leaves[0]...), leaves[1][:2]...) {
+			if d.failed {
+				return
+			}
+			d.del(k)
+		}
+	}
+	if d.failed {
+		return
+	}
+	// 3. neutral churn in the last leaf until exactly W-1 generations have passed since step 1
+	pad := d.univ + 5
+	padTok := &Tok{ID: pad}
+	present := false
+	for d.sut.Gen() < firstAt+W-1 {
+		if present {
+			d.sut.Delete(&Tok{ID: pad})
+			d.model.Delete(padTok)
+		} else {
+			v := d.cfg.valOf(1 << 30)
+			d.sut.Put(padTok, v)
+			d.model.Put(padTok, v)
+		}
+		present = !present
+	}
+	if d.sut.Gen() != firstAt+W-1 {
+		return // overshot (the shift used more generations than W): not the scenario
+	}
+	d.prev = nil
+	d.judge("pad", pad)
+	if d.failed {
+		return
+	}
+	// 4. make the same leaf rebalance again: this is generation firstAt+W
+	rest := target[used:]
+	if len(rest) == 0 {
+		return
+	}
+	d.del(rest[0])
+	r.Count("wrap", "second rebalancing reached", 1)
+	r.Count("wrap", fmt.Sprintf("W=%d", W), 1)
+	for _, k := range rest[1:] {
+		if d.failed {
+			return
+		}
+		d.del(k)
+	}
+	d.lookups(20)
+}
+
+type gcTok struct {
+	ID   int
+	self *gcTok // a pointer field keeps the object out of the tiny allocator (finalizers are unreliable there)
+}
+
+// gcCase: keys and values carry finalizers; after entries are deleted (in orders that merge nodes
+// away) the garbage collector must be able to reclaim their tokens. The harness keeps no reference
+// to stored tokens. Finalizers run asynchronously, so the probe repeats GC cycles and only a
+// shortfall that persists after many cycles, far above the handful of objects a dead stack slot can
+// pin, is a verdict.
+func gcCase(c *vkit.Case) {
+	r := c.R
+	rnd := c.Rand
+	n := []int{600, 2000, 4000}[c.Index%3]
+	var keysFin, valsFin atomic.Int64
+	m := tree.NewMapCmp[*gcTok, *gcTok](func(a, b *gcTok) int { return a.ID - b.ID })
+	order := rnd.Perm(n)
+	if c.Index%2 == 0 {
+		for i := range order {
+			order[i] = i
+		}
+	}
+	func() {
+		for _, i := range order {
+			k := &gcTok{ID: i}
+			v := &gcTok{ID: -i - 1}
+			runtime.SetFinalizer(k, func(*gcTok) { keysFin.Add(1) })
+			runtime.SetFinalizer(v, func(*gcTok) { valsFin.Add(1) })
+			m.Put(k, v)
+		}
+	}()
+	// delete most entries: contiguous ranges (merges, cascades), every other key, random
+	deleted := 0
+	del := func(i int) {
+		probe := gcTok{ID: i}
+		if m.Contains(&probe) {
+			m.Delete(&probe)
+			deleted++
+		}
+	}
+	switch c.Index / 2 % 3 {
+	case 0:
+		for i := n / 20; i < n-n/20; i++ {
+			del(i)
+		}
+	case 1:
+		for i := 0; i < n; i += 2 {
+			del(i)
+		}
+		for i := 1; i < n-40; i += 2 {
+			del(i)
+		}
+	default:
+		for _, i := range rnd.Perm(n)[:n-n/10] {
+			del(i)
+		}
+	}
+	want := int64(deleted)
+	const slack = 24
+	rounds := 0
+	for rounds = 0; rounds < 40; rounds++ {
+		runtime.GC()
+		time.Sleep(2 * time.Millisecond)
+		if keysFin.Load() >= want-slack && valsFin.Load() >= want-slack {
+			break
+		}
+	}
+	r.Eval(1)
+	r.Count("gc", "probes", 1)
+	r.Count("gc", "entries deleted", deleted)
+	r.Max("gc", "GC cycles needed", rounds+1)
+	kf, vf := keysFin.Load(), valsFin.Load()
+	if m.Len() != n-deleted {
+		c.Violation("len", fmt.Sprintf("gc probe: Len() = %d, want %d", m.Len(), n-deleted), nil)
+		return
+	}
+	if kf < want-slack || vf < want-slack {
+		c.Violation("not-collectable", fmt.Sprintf("gc probe: %d entries were deleted from a map of %d; after %d garbage collections only %d of their key tokens and %d of their value tokens had been reclaimed (the harness holds no reference to them; up to %d may be pinned by dead stack slots)",
+			deleted, n, rounds, kf, vf, slack), map[string]any{"n": n, "pattern": c.Index / 2 % 3})
+		return
+	}
+	runtime.KeepAlive(m)
 }
